@@ -305,7 +305,10 @@ func ruleParseEntry(c *core.Ctx) {
 }
 
 // ruleParserShapesInto re-keys the C07 parser rule under another rule name.
+var parallelCtx *core.Ctx
+
 func ruleParserShapesInto(c *core.Ctx, rule string) {
+	parallelCtx = c
 	for _, fn := range srcFuncsOfPkg(c, "meta/signature") {
 		if !isNodeBuilderOrHelper(c, fn, 0) {
 			continue
@@ -387,7 +390,10 @@ func parallelIndexUnchecked(fn *ssa.Function, x *ssa.IndexAddr) (bad bool, check
 			return false
 		}
 	}
-	return !core.Guarded(fn, x, core.Eq(isLenOf(xs), isLenOf(y))), true
+	if core.Guarded(fn, x, core.Eq(isLenOf(xs), isLenOf(y))) {
+		return false, true
+	}
+	return !(parallelCtx != nil && lenEqAtCallers(parallelCtx, fn, xs, y)), true
 }
 
 var _ = types.Typ
